@@ -209,8 +209,8 @@ structure LState where
   metas : List (List Val)
   memo : Array Val
   heap : Heap
-  /-- key insertions (SETITEM(S), ADDITEMS, FROZENSET) whose key is — or is a tuple containing — an
-  instance of a hash-reading class that has not been BUILT yet -/
+  /-- key insertions (SETITEM(S), ADDITEMS, FROZENSET) whose hashing reads an instance of a hash-reading
+  class that has not been BUILT yet (`keyUnbuilt`) -/
   unready : Nat
   deriving Repr
 
@@ -234,22 +234,65 @@ def clsName (h : Heap) : Val → Option (String × String)
     | _ => Option.none
   | _ => Option.none
 
-/-- is hashing `v` going to read the `__dict__` of an instance that has none yet?  (tuples and
-frozensets hash their elements; `fuel` bounds that nesting) -/
-def keyUnbuilt (hr : String → String → Bool) (h : Heap) : Nat → Val → Bool
-  | 0, _ => false
+/-! ## reachability, the key-cycle proviso -/
+
+def Val.addr? : Val → Option Nat
+  | .ref a => some a
+  | _ => Option.none
+
+/-- depth-first marking from a work list; `fuel` ≥ number of work-list pops (≤ edges + roots) -/
+def reachGo (h : Heap) : Nat → List Nat → Array Bool → Array Bool
+  | 0, _, seen => seen
+  | _, [], seen => seen
+  | fuel + 1, a :: work, seen =>
+    if seen.getD a true then reachGo h fuel work seen
+    else
+      let kids := ((h[a]?).map Obj.children).getD [] |>.filterMap Val.addr?
+      reachGo h fuel (kids ++ work) (seen.setIfInBounds a true)
+
+def edgeCount (h : Heap) : Nat := h.toList.foldl (fun n o => n + o.children.length) 0
+
+/-- characteristic vector of the addresses reachable from `v` -/
+def reach (h : Heap) (v : Val) : Array Bool :=
+  reachGo h (edgeCount h + h.size + 2) (v.addr?.toList) (Array.replicate h.size false)
+
+def keysOf : Obj → List Val
+  | .dict kvs => kvs.map (·.1)
+  | .reduced _ kvs _ => kvs.map (·.1)
+  | .set xs => xs
+  | .frozenset xs => xs
+  | _ => []
+
+/-- the instances (of hash-reading classes) whose attributes are read when `v` is hashed -/
+def hashedInsts (hr : String → String → Bool) (h : Heap) : Nat → Val → List Nat
+  | 0, _ => []
   | fuel + 1, .ref a =>
     match h[a]? with
-    | some (.inst cls Option.none) => match clsName h cls with
-      | some (m, q) => hr m q
-      | Option.none => false
-    | some (.tuple xs) => xs.any (keyUnbuilt hr h fuel)
-    | some (.frozenset xs) => xs.any (keyUnbuilt hr h fuel)
-    | _ => false
-  | _, _ => false
+    | some (.inst cls _) => match clsName h cls with
+      | some (m, q) => if hr m q then [a] else []
+      | Option.none => []
+    | some (.tuple xs) => xs.flatMap (hashedInsts hr h fuel)
+    | some (.frozenset xs) => xs.flatMap (hashedInsts hr h fuel)
+    | _ => []
+  | _, _ => []
+
+/-- is hashing `v` going to read the `__dict__` of an instance that has none yet?  The instances whose
+`__hash__` runs are `hashedInsts`; such a hash may read on through attribute values (`str(self.type_args)` …),
+so every hash-reading instance reachable from them must have been BUILT. -/
+def unbuiltAt (hr : String → String → Bool) (h : Heap) (a : Nat) : Bool :=
+  match h[a]? with
+  | some (.inst cls Option.none) => match clsName h cls with
+    | some (m, q) => hr m q
+    | Option.none => false
+  | _ => false
+
+def keyUnbuilt (hr : String → String → Bool) (h : Heap) (v : Val) : Bool :=
+  (hashedInsts hr h 8 v).any fun i =>
+    let seen := reach h (.ref i)
+    (List.range h.size).any fun a => seen.getD a false && unbuiltAt hr h a
 
 def countUnbuilt (hr : String → String → Bool) (h : Heap) (keys : List Val) : Nat :=
-  (keys.filter (keyUnbuilt hr h 8)).length
+  (keys.filter (keyUnbuilt hr h)).length
 
 /-- `[k1, v1, k2, v2, …]` (bottom of the stack first) → pairs; `none` if odd -/
 def pairs : List Val → Option (List (Val × Val))
@@ -383,6 +426,10 @@ def run (hr : String → String → Bool) : List Op → LState → Option LState
 
 def noHash : String → String → Bool := fun _ _ => false
 
+/-- look-up in the table generated from src/ir/*.py: (module, class, `__hash__` reads self, `__eq__` reads self) -/
+def hashReadsOf (table : List (String × String × Bool × Bool)) (m q : String) : Bool :=
+  table.any fun e => e.1 == m && e.2.1 == q && (e.2.2.1 || e.2.2.2)
+
 /-- `pickle.loads`: the rebuilt heap and the root -/
 def load (ops : List Op) : Option (Heap × Val) :=
   match run noHash ops initL with
@@ -395,47 +442,7 @@ def load (ops : List Op) : Option (Heap × Val) :=
 def unreadyKeys (hr : String → String → Bool) (ops : List Op) : Option Nat :=
   (run hr ops initL).map (·.unready)
 
-/-! ## reachability, the key-cycle proviso -/
-
-def Val.addr? : Val → Option Nat
-  | .ref a => some a
-  | _ => Option.none
-
-/-- depth-first marking from a work list; `fuel` ≥ number of work-list pops (≤ edges + roots) -/
-def reachGo (h : Heap) : Nat → List Nat → Array Bool → Array Bool
-  | 0, _, seen => seen
-  | _, [], seen => seen
-  | fuel + 1, a :: work, seen =>
-    if seen.getD a true then reachGo h fuel work seen
-    else
-      let kids := ((h[a]?).map Obj.children).getD [] |>.filterMap Val.addr?
-      reachGo h fuel (kids ++ work) (seen.setIfInBounds a true)
-
-def edgeCount (h : Heap) : Nat := h.foldl (fun n o => n + o.children.length) 0
-
-/-- characteristic vector of the addresses reachable from `v` -/
-def reach (h : Heap) (v : Val) : Array Bool :=
-  reachGo h (edgeCount h + h.size + 2) (v.addr?.toList) (Array.replicate h.size false)
-
-def keysOf : Obj → List Val
-  | .dict kvs => kvs.map (·.1)
-  | .reduced _ kvs _ => kvs.map (·.1)
-  | .set xs => xs
-  | .frozenset xs => xs
-  | _ => []
-
-/-- the instances (of hash-reading classes) whose attributes are read when `v` is hashed -/
-def hashedInsts (hr : String → String → Bool) (h : Heap) : Nat → Val → List Nat
-  | 0, _ => []
-  | fuel + 1, .ref a =>
-    match h[a]? with
-    | some (.inst cls _) => match clsName h cls with
-      | some (m, q) => if hr m q then [a] else []
-      | Option.none => []
-    | some (.tuple xs) => xs.flatMap (hashedInsts hr h fuel)
-    | some (.frozenset xs) => xs.flatMap (hashedInsts hr h fuel)
-    | _ => []
-  | _, _ => []
+/-! ## the key-cycle proviso -/
 
 /-- **the proviso of `keys_ready`**: no container reachable from the root has a key whose hash reads an
 instance from which that container is reachable (then the instance is complete — BUILT — whenever
